@@ -23,16 +23,22 @@ def headWhiteout : List Real → Bool
   | r :: _ => r.whiteout
   | [] => false
 
+/-- a stack that must have a node in a loaded parent: something visible, or an upper whiteout
+    (a name hidden by a LOWER whiteout may have no node: `do_rm` drops the node in that case) -/
+def needsNode : List Real → Bool
+  | r :: _ => !r.whiteout || r.inUpper
+  | [] => false
+
 structure Consistent (s : St) : Prop where
   roots : s.disk.RootsOK
   trees : s.disk.TreesOK
   root : ∃ m, s.mem [] = some m
   reals : ∀ p m, s.mem p = some m → RealsOK s.disk p m.reals
   wh : ∀ p m, s.mem p = some m → m.whiteout = headWhiteout m.reals
-  /-- a loaded directory lists only names that have real inodes, and every visible name (a
-      whiteout node may be missing: `do_rm` drops it when a lower whiteout already hides the name) -/
+  /-- a loaded directory lists only names that have real inodes, and every name that is visible
+      or whited out in the upper layer -/
   kidsLoaded : ∀ p m, s.mem p = some m → m.loaded = true → ∀ n,
-    (n ∈ m.kids → expReals s.disk (n :: p) ≠ []) ∧ (specStat s.disk (n :: p) ≠ none → n ∈ m.kids)
+    (n ∈ m.kids → expReals s.disk (n :: p) ≠ []) ∧ (needsNode (expReals s.disk (n :: p)) = true → n ∈ m.kids)
   kidsMem : ∀ p m n, s.mem p = some m → n ∈ m.kids → ∃ c, s.mem (n :: p) = some c
   unloaded : ∀ p m, s.mem p = some m → m.loaded = false → m.kids = []
   reach : ∀ n p c, s.mem (n :: p) = some c → ∃ pm, s.mem p = some pm ∧ n ∈ pm.kids
@@ -269,7 +275,8 @@ theorem loaded_consistent (s s' : St) (hc : Consistent s) (p : Path) (m : MNode)
     · subst h1; rw [hp] at hq; cases hq
       refine ⟨(scanKids_names s.disk q m n hr).1, fun hsp => (scanKids_names s.disk q m n hr).2 ?_⟩
       intro he
-      exact hsp (by simp [specStat, he])
+      rw [he] at hsp
+      simp [needsNode] at hsp
     · by_cases h2 : ∃ n, q = n :: p
       · obtain ⟨n', rfl⟩ := h2
         rw [hchild] at hq
